@@ -14,3 +14,16 @@ Theorem C07_kotlin_prims : forall p,
   option_map erase_sign (kt_name_abi (kt_prim_native p)) = Some (erase_sign (rust_prim_abi p)).
 Proof. exact kotlin_prim_agrees_width. Qed.
 Print Assumptions C07_kotlin_prims.
+
+(* inside JNA Structures (struct mirrors, Option / Result records) a Kotlin Boolean would be 4 bytes wide; the declarations
+   the backend uses there (fmt_primitive_type_native, regenerated into gen/Tables.v on every run) have the width of the
+   Rust primitive for every primitive, bool included *)
+Theorem C07_kotlin_field_prims : forall p,
+  option_map erase_sign (kt_field_abi (kt_prim_native p)) = Some (erase_sign (rust_prim_abi p)).
+Proof. exact kotlin_field_prim_agrees_width. Qed.
+Print Assumptions C07_kotlin_field_prims.
+
+Theorem C07_kotlin_boolean_field_is_wide :
+  option_map (fun a => fst (size_align a)) (kt_field_abi "Boolean") = Some 4%N /\ fst (size_align (rust_prim_abi PBool)) = 1%N.
+Proof. exact kotlin_boolean_field_is_wide. Qed.
+Print Assumptions C07_kotlin_boolean_field_is_wide.
